@@ -127,44 +127,72 @@ Print Assumptions C15_response_range_exact.
        handle f root false show accept fn = SFile p enc c ->
        path_prefix root p = true /\ Phys f p /\ lookup f p = Some (NFile c).
 
-   The faithful model REFUTES it (and the implementation reproduces the witness: known finding
-   C15-symlink-loop-escape, corpus/C15/loop-escape-file.json): os.path.realpath(strict=False) gives up at a
-   symbolic-link loop and returns the rest of the path unresolved; Path.resolve() only normalises that rest
-   lexically, so "a/../l" with a<->b a loop and l a link leaving the root passes relative_to(root) and the
-   file response then opens /r/l THROUGH the link. *)
+   History.  The unrepaired code was refuted by "a/../l" (a<->b a symlink loop, l a link leaving the root):
+   Path.resolve() gives up at the loop and only normalises the rest lexically.  Fix 706b3e0 added
+   `if file_path.resolve() != file_path: raise ValueError`; that witness is now answered 404
+   (C15_loop_escape_repaired, corpus/C15/loop-escape-*.json must pass).
+
+   The faithful model of the REPAIRED code still refutes the full statement (implementation reproduces it:
+   open known finding C15-sibling-escape-after-loop, corpus/C15/sibling-escape-after-loop.json): a path can be
+   a fixed point of resolve() and still contain a link, when the stat() that resolve() uses to detect the loop
+   fails with ENOENT instead of ELOOP; the pre-compressed sibling is then lstat'ed THROUGH that link. *)
 Theorem C15_confined_refuted :
-  exists f root fn p c q,
+  exists f root accept fn p enc c q,
     kstat f root = KOk root NDir /\
-    handle f root false false [] fn = SFile p None c /\
-    kstat f p = KOk q (NFile c) /\           (* the bytes served are those stored at q ... *)
-    path_prefix root q = false /\            (* ... which is outside the root *)
-    is_link (lookup f p) = true.             (* because the "resolved" path is itself a link *)
+    handle f root false false accept fn = SFile p (Some enc) c /\
+    klstat f p = KOk q (NFile c) /\          (* the bytes served are those stored at q ... *)
+    path_prefix root q = false.              (* ... which is outside the root *)
 Proof.
-  exists loop_fs, [[114%N]], loop_fn, [[114%N]; [108%N]], [66%N], [[111%N]].
-  destruct confined_refuted as (A & B & C & D & _ & E). auto.
+  exists sib_fs, [[114%N]], gzip_str, sib_fn, [[114%N]; [100%N]; [110%N; 46%N; 103%N; 122%N]], gzip_str, [83%N],
+         [[111%N]; [110%N; 46%N; 103%N; 122%N]].
+  destruct confined_refuted as (A & B & C & D & _). auto.
 Qed.
 Print Assumptions C15_confined_refuted.
 
-(* What is proved in its place: the same statement under the explicit hypothesis that realpath did not
-   give up at a symlink loop while resolving root/filename.  ANY tree, ANY filename text (dot segments,
-   backslashes, repeated slashes, NULs, whatever the URL layer decodes to), ANY Accept-Encoding, also for
-   the pre-compressed .br/.gz sibling.  Missing for the full statement: a repair of the loop case in
-   StaticResource._resolve_path_to_response (e.g. refuse when file_path.resolve() != file_path). *)
+(* the witness of the repaired defect: resolve() still returns the link /r/l, but its second resolve() differs
+   and the route now answers 404, with and without show_index *)
+Theorem C15_loop_escape_repaired :
+  kstat loop_fs [[114%N]] = KOk [[114%N]] NDir /\
+  resolve loop_fs [[114%N]; [97%N]; [46%N; 46%N]; [108%N]] = RP_ok [[114%N]; [108%N]] /\
+  is_link (lookup loop_fs [[114%N]; [108%N]]) = true /\
+  resolve loop_fs [[114%N]; [108%N]] = RP_ok [[111%N]] /\
+  handle loop_fs [[114%N]] false false [] loop_fn = S404 /\
+  handle loop_fs [[114%N]] false true [] loop_fn = S404.
+Proof. exact loop_escape_repaired. Qed.
+Print Assumptions C15_loop_escape_repaired.
+
+(* What is proved in place of the full statement, for ANY tree, ANY filename text (dot segments, backslashes,
+   repeated slashes, NULs, whatever the URL layer decodes to), ANY Accept-Encoding, also for the .br/.gz
+   sibling.  (1) with the fixed-point check it is enough that the SECOND realpath run -- on the path the
+   first resolve() returned -- did not give up at a loop, whatever happened in the first: *)
 Theorem C15_confined_partial : forall f root show accept fn p enc c,
+  kstat f root = KOk root NDir ->
+  (forall p0, resolve f (root ++ snd (parse_posix fn)) = RP_ok p0 -> no_loop_met f p0) ->
+  handle f root false show accept fn = SFile p enc c ->
+  path_prefix root p = true /\ Phys f p /\ lookup f p = Some (NFile c).
+Proof. exact handle_confined_fixedpoint. Qed.
+Print Assumptions C15_confined_partial.
+
+(* (2) the hypothesis of the unrepaired code (no loop met while resolving root/filename) also still suffices.
+   Missing for the full statement: a check in _resolve_path_to_response that no component of file_path below
+   the root is a symbolic link (then Phys holds by definition), or a proof that a kernel walk that succeeds
+   never meets a link realpath has in progress (which would settle the non-sibling case only). *)
+Theorem C15_confined_noloop_partial : forall f root show accept fn p enc c,
   kstat f root = KOk root NDir ->
   no_loop_met f (root ++ snd (parse_posix fn)) ->
   handle f root false show accept fn = SFile p enc c ->
   path_prefix root p = true /\ Phys f p /\ lookup f p = Some (NFile c).
 Proof. exact handle_confined_partial. Qed.
-Print Assumptions C15_confined_partial.
+Print Assumptions C15_confined_noloop_partial.
 
 (* the same through the route's own prefix matching, for ANY request path *)
 Theorem C15_confined_route_partial : forall f prefix root show accept path_safe p enc c,
   kstat f root = KOk root NDir ->
-  (forall fn, static_resolve prefix path_safe = Some fn -> no_loop_met f (root ++ snd (parse_posix fn))) ->
+  (forall fn p0, static_resolve prefix path_safe = Some fn ->
+     resolve f (root ++ snd (parse_posix fn)) = RP_ok p0 -> no_loop_met f p0) ->
   serve_path f prefix root false show accept path_safe = SFile p enc c ->
   path_prefix root p = true /\ Phys f p /\ lookup f p = Some (NFile c).
-Proof. exact serve_path_confined_partial. Qed.
+Proof. exact serve_path_confined_fixedpoint. Qed.
 Print Assumptions C15_confined_route_partial.
 
 (* holds unconditionally (loops included): the path handed to the file response is LEXICALLY below the root *)
@@ -189,7 +217,7 @@ Print Assumptions C15_resolve_physical_partial.
 Theorem C15_resolve_physical_refuted : exists f p q, resolve f p = RP_ok q /\ is_link (lookup f q) = true.
 Proof.
   exists loop_fs, [[114%N]; [97%N]; [46%N; 46%N]; [108%N]], [[114%N]; [108%N]].
-  destruct confined_refuted as (_ & _ & _ & _ & A & B). auto.
+  destruct loop_escape_repaired as (_ & A & B & _). auto.
 Qed.
 Print Assumptions C15_resolve_physical_refuted.
 
@@ -217,9 +245,9 @@ Theorem C15_listing_only_if_enabled : forall f prefix root follow show accept pa
 Proof. exact serve_path_listing. Qed.
 Print Assumptions C15_listing_only_if_enabled.
 
-(* sandbox mode without a loop on the way: the listing is that of the physical directory d below the root *)
+(* sandbox mode, second realpath run without a loop: the listing is that of the physical directory d below the root *)
 Theorem C15_listing_physical_partial : forall f root show accept fn d names,
-  no_loop_met f (root ++ snd (parse_posix fn)) ->
+  (forall p0, resolve f (root ++ snd (parse_posix fn)) = RP_ok p0 -> no_loop_met f p0) ->
   handle f root false show accept fn = SListing d names ->
   Phys f d /\ node_at f d = Some NDir /\ names = children f d.
 Proof. exact handle_listing_physical. Qed.
@@ -267,3 +295,8 @@ Print Assumptions C15_example_tree.
 Example C15_example_no_loop : no_loop_met ex_fs ([[114]] ++ snd (parse_posix [102])).
 Proof. exact ex_no_loop. Qed.
 Print Assumptions C15_example_no_loop.
+
+Example C15_example_no_loop_fixedpoint :
+  forall p0, resolve ex_fs ([[114]] ++ snd (parse_posix [102])) = RP_ok p0 -> no_loop_met ex_fs p0.
+Proof. exact ex_no_loop_fixedpoint. Qed.
+Print Assumptions C15_example_no_loop_fixedpoint.
